@@ -142,7 +142,13 @@ impl<'r, R: Read> Block<'r, R> {
     /// the block. The objects are stored in an internal buffer to the `Reader`.
     fn read_block_next(&mut self) -> AvroResult<()> {
         assert!(self.is_empty(), "Expected self to be empty!");
-        match util::read_usize(&mut self.reader).map_err(Error::into_details) {
+        let mut count_reader = CountingReader {
+            inner: &mut self.reader,
+            bytes_read: 0,
+        };
+        let block_len = util::read_usize(&mut count_reader);
+        let count_bytes_read = count_reader.bytes_read;
+        match block_len.map_err(Error::into_details) {
             Ok(block_len) => {
                 self.message_count = block_len;
                 let block_bytes = util::read_usize(&mut self.reader)?;
@@ -165,8 +171,11 @@ impl<'r, R: Read> Block<'r, R> {
                 self.codec.decompress(&mut self.buf)
             }
             Err(Details::ReadVariableIntegerBytes(io_err)) => {
-                if let ErrorKind::UnexpectedEof = io_err.kind() {
-                    // to not return any error in case we only finished to read cleanly from the stream
+                if let ErrorKind::UnexpectedEof = io_err.kind()
+                    && count_bytes_read == 0
+                {
+                    // to not return any error in case we only finished to read cleanly from the stream,
+                    // an end of input in the middle of the block count is a truncated file
                     Ok(())
                 } else {
                     Err(Details::ReadVariableIntegerBytes(io_err).into())
@@ -292,6 +301,20 @@ impl<'r, R: Read> Block<'r, R> {
                 warn!("User metadata values must be Value::Bytes, found {wrong:?}");
             }
         }
+    }
+}
+
+/// Counts the bytes read from the inner reader.
+struct CountingReader<'a, R> {
+    inner: &'a mut R,
+    bytes_read: usize,
+}
+
+impl<R: Read> Read for CountingReader<'_, R> {
+    fn read(&mut self, buf: &mut [u8]) -> std::io::Result<usize> {
+        let n = self.inner.read(buf)?;
+        self.bytes_read += n;
+        Ok(n)
     }
 }
 
